@@ -129,7 +129,8 @@ def run(rep, tier, seed, replay=None):
     for fam, d in netprops.FAMILIES.items():
         if "retries" not in d or d.get("nargs", 0) <= d["retries"]:
             continue
-        vs = [x for x in netprops.valid_cases(fam, seed + 18, 60 if tier == "quick" else 400) if not x.notwf]
+        # (scripted sockets only: on the loopback HTTP entries a nanosecond is a real deadline — they follow below)
+        vs = [x for x in netprops.valid_cases(fam, seed + 18, 60 if tier == "quick" else 400) if not x.notwf and not x.line.split(" ")[1].startswith("eco_http")]
         # the largest exchanges first (split / multi-packet replies), then the rest
         vs.sort(key=lambda x: -len(x.line))
         for i, v in enumerate(vs[: (10 if tier == "quick" else 80)]):
@@ -139,6 +140,21 @@ def run(rep, tier, seed, replay=None):
             cases.append(c.line(cid))
             base_want[cid] = v.want
             rep.count("extreme-durations:" + fam)
+
+    # the HTTP client (Eco) with the extreme durations, against a loopback HTTP server that answers: the client must not
+    # compute anything with them that can overflow (implementation only; the HTTP client is a parameter of the model)
+    http_lines, http_want = [], {}
+    ecov = [v for v in netprops.valid_cases("eco", seed + 18, 30) if not v.notwf and v.want.startswith("OK") and v.line.split(" ")[1] == "eco"]
+    # (durations a loopback exchange cannot exceed: huge ones, none, a few seconds)
+    for i, td in enumerate([TDS[0], TDS[3], f"{UMAX}:0,{UMAX}:0,5:0", f"{UMAX}:0,5:0,{UMAX}:999999999", f"5:0,{UMAX}:999999999,{UMAX}:0",
+                            f"{UMAX}:999999999,{UMAX}:999999999,{UMAX}:999999999", f"-,{UMAX}:0,{UMAX}:0", f"{UMAX // 2 + 1}:0,{UMAX // 2 + 1}:0,-"]):
+        if not ecov:
+            break
+        v = ecov[i % len(ecov)]
+        c = v.case()
+        cid = f"{v.id}htd{i}"
+        http_lines.append(f"{cid} eco_http {c.args[0]} {c.args[1]} {c.fmt_script()} td={td}")
+        http_want[cid] = v.want
 
     def oracle(case, impl, model, panic):
         out = netprops.crash_oracle(case, impl, model, panic)
@@ -153,5 +169,16 @@ def run(rep, tier, seed, replay=None):
         return out
 
     vlib.correspond(rep, netprops.corpus("C18") + cases, oracle=oracle, tag="c18")
+    himpl, hpanics = vlib.run_impl(http_lines, tag="c18h") if http_lines else ({}, {})
+    for l in http_lines:
+        cid = l.split(" ", 1)[0]
+        out = himpl.get(cid, "")
+        rep.seen(l[:200], out[:200])
+        rep.count("extreme-durations:http")
+        bad = netprops.crash_oracle(l, out, out, hpanics.get(cid, ""))
+        if bad:
+            rep.oracle_failures += [(sg, d, l[:2000], out[:300]) for sg, d in bad]
+        elif vlib.result_of(out) != http_want[cid]:
+            rep.oracle_failures.append(("extreme-durations:http-result", f"result differs with extreme durations: {out[:160]}", l[:2000], out[:300]))
     rep.extra_cov["exhaustive"] = True
     rep.extra_cov["explanation"] = "the new/serde matrices are enumerated completely in both tiers; the flag matrix completely in the thorough tier"
